@@ -226,12 +226,16 @@ theorem unary_printOld_comment_iff (e : UExpr) (h : e.atomsClean = true) :
 /-! ## GRAMMAR LAYER, operator-expression fragment (lib/parser/parser.y, table regenerated into Csvq/Gen/Precedence.lean)
 
   Binary operators (OR, AND, = and the COMPARISON_OP spellings, LIKE, ||, + - * / %), prefix operators (NOT, !, unary
-  - +), the postfix test IS [NOT] NULL/TRUE/FALSE/UNKNOWN, written parentheses, atoms.  `OpExpr.parse` is precedence
+  - +), the postfix test IS [NOT] NULL/TRUE/FALSE/UNKNOWN, written parentheses, atoms — and, since wave 17, the forms whose
+  shift/reduce decisions are NOT those of a binary operator: `value NOT LIKE value` (decided with the level of NOT, the
+  right operand read with the level of LIKE), `value [NOT] BETWEEN value AND value` (the rule has the level of its last
+  terminal AND; the lower bound ends at the first AND its own loop meets), `value [NOT] IN (values)`, function calls
+  `f(values)` / `f()`, `CURSOR c IS [NOT] OPEN | IN RANGE`, `CURSOR c COUNT`.  `OpExpr.parse` is precedence
   climbing whose every decision is yacc's resolution rule `act` on the levels of the table; the theorems hold for
   EVERY table, in particular for `genTable`, and for trees of any depth.
 
-  Full statement for the whole `value` grammar (NOT proved here; BETWEEN, IN, NOT LIKE / NOT IN / NOT BETWEEN, ANY / ALL,
-  row values and the non-operator values are validated by correspondence only — laws print_parse_fixpoint:*,
+  Full statement for the whole `value` grammar (NOT proved here; CASE, sub-queries (scalar, IN, EXISTS, ANY / ALL),
+  row values, aggregate / analytic / list functions are validated by correspondence only — laws print_parse_fixpoint:*,
   print_parse_tree_differs, stream op c18.opx covers exactly the proved fragment):
       theorem value_print_parse (e : Value) (h : ParserBuilt e) : parseValue (printValue e) = some e
   `op_print_parse` below is its partial form: the same statement for the operator fragment.
@@ -243,8 +247,8 @@ open Csvq.OpExpr in
 theorem op_print_parse {α : Type} [DecidableEq α] (tbl : Table α) (e : Expr α) (h : WellFormed tbl e) :
     parse tbl (print tbl e) = some e := by
   have hc := cost_le tbl e
-  have := parseE_print tbl e h.1 0 [] 1 (e, []) h.2 (by simp [Stop]) (loop_return tbl 0 e [] (by simp [Stop]) 0)
-    (3 * (print tbl e).length + 3) (by omega)
+  have := parseE_print tbl e h.1 0 false [] 1 (e, []) h.2 (by simp [Stop]) (by simp [NoLpar]) (loop_return tbl 0 e [] (by simp [Stop]) 0)
+    (fuelFor (print tbl e)) (by simp [fuelFor]; omega)
   unfold parse
   simp only [List.append_nil] at this
   rw [this]
@@ -254,7 +258,7 @@ open Csvq.OpExpr in
 theorem op_parse_wellformed {α : Type} [DecidableEq α] (tbl : Table α) (ts : List (Tok α)) (e : Expr α)
     (h : parse tbl ts = some e) : WellFormed tbl e := by
   unfold parse at h
-  cases hp : parseE tbl (3 * ts.length + 3) 0 ts with
+  cases hp : parseE tbl (fuelFor ts) 0 false ts with
   | none => simp [hp] at h
   | some q =>
     obtain ⟨e', rest⟩ := q
@@ -263,7 +267,7 @@ theorem op_parse_wellformed {α : Type} [DecidableEq α] (tbl : Table α) (ts : 
     | nil =>
       simp only [Option.some.injEq] at h
       subst h
-      obtain ⟨hw, hf, _⟩ := (parse_inv tbl _).1 _ _ _ _ hp
+      obtain ⟨hw, hf, _⟩ := (parse_inv tbl _).1 _ _ _ _ _ hp
       exact ⟨hw, hf⟩
     | cons t ts' => simp at h
 
@@ -289,6 +293,20 @@ theorem gen_precedence_order :
     genTable.pre .c_minus = some 12 ∧ genTable.pre .c_plus = some 12 ∧ genTable.pre .c_bang = some 12 ∧
     genTable.neg = .NOT ∧ genTable.bin .NOT = none ∧ genTable.bin .IS = none ∧ genTable.bin .c_bang = none := by
   decide
+
+open Csvq.OpExpr Csvq.Gen.Precedence in
+/-- the NOT forms, BETWEEN and IN, regenerated from parser.y: the productions exist (with and without NOT), none has a
+    %prec (so `value [NOT] BETWEEN value AND value` has the level of its last terminal, AND), and their tokens have the
+    levels the model decides with: NOT is shifted or not by ITS level 7 (`a = b NOT LIKE c` is `(a = b) NOT LIKE c`),
+    BETWEEN / IN by the non-associative level 8.  The model's special tokens are these terminals. -/
+theorem gen_not_forms_levels :
+    negatedOps = [.LIKE] ∧ betweenOps = [(.BETWEEN, .AND, false), (.BETWEEN, .AND, true)] ∧ inOps = [(.IN, false), (.IN, true)] ∧
+    genTable.lvl .NOT = some (7, .right) ∧ genTable.lvl .BETWEEN = some (8, .nonassoc) ∧ genTable.lvl .IN = some (8, .nonassoc) ∧
+    genTable.btw = .BETWEEN ∧ genTable.and_ = .AND ∧ genTable.inn = .IN ∧ genTable.is_ = .IS ∧
+    genTable.bin .BETWEEN = none ∧ genTable.bin .IN = none ∧ genTable.post .NOT = none ∧ genTable.post .BETWEEN = none ∧
+    genTable.post .IN = none ∧ genTable.negable .LIKE = true ∧ genTable.negable .c_eq = false := by
+  refine ⟨by decide, by decide, by decide, by decide, by decide, by decide, rfl, rfl, rfl, rfl, by decide, by decide, by decide,
+    by decide, by decide, by decide, by decide⟩
 
 open Csvq.OpExpr Csvq.Gen.Precedence in
 /-- the round trip for the grammar csvq has today -/
@@ -371,6 +389,62 @@ theorem gen_operator_printers_match_model :
   · intros; rfl
   · intro e; rfl
   · intro e; rfl
+
+open Csvq.OpExpr in
+/-- print ∘ parse ∘ print = print, for every tree the parser can build (of any depth, with every form of the fragment) -/
+theorem op_print_idempotent {α : Type} [DecidableEq α] (tbl : Table α) (e : Expr α) (h : WellFormed tbl e) :
+    (parse tbl (print tbl e)).map (print tbl) = some (print tbl e) := by
+  rw [op_print_parse tbl e h]; rfl
+
+open Csvq.OpExpr in
+/-- a non-empty argument list (of a function call or an IN list) in front of its closing parenthesis is read back,
+    whatever its length and the depth of its elements -/
+theorem args_print_parse {α : Type} [DecidableEq α] (tbl : Table α) (as : Args α) (hne : as ≠ .nil) (hw : WFArgs tbl as)
+    (rest : List (Tok α)) : parseArgs tbl (costArgs as + 1) (printArgs tbl as ++ .rpar :: rest) = some (as, .rpar :: rest) :=
+  parseArgs_print tbl as hne hw rest _ (Nat.le_refl _)
+
+open Csvq.AstPrint Csvq.Gen.AstPrint Csvq.OpExpr in
+/-- the printers of the expression forms added in wave 17 emit their parts in the order, under the conditions and with
+    the keywords of the String() methods as regenerated from ast.go: Between (LHS [NOT] BETWEEN Low AND High), In
+    (LHS [NOT] IN Values), Like (LHS [NOT] LIKE Pattern), RowValue / ValueList (`(` list `)`), Function (NAME `(` list `)`),
+    CursorStatus (CURSOR c IS [NOT] [IN] type — the negation is printed for BOTH types, IN only for RANGE),
+    CursorAttrebute; right, the model's equation for the same node. -/
+theorem gen_expression_printers_match_model :
+    emitted node_Between = [("", "e.LHS.String()"), ("e.IsNegated()", "e.Negation.String()"), ("", "keyword(BETWEEN)"),
+      ("", "e.Low.String()"), ("", "keyword(AND)"), ("", "e.High.String()")] ∧
+    emitted node_In = [("", "e.LHS.String()"), ("e.IsNegated()", "e.Negation.String()"), ("", "keyword(IN)"), ("", "e.Values.String()")] ∧
+    emitted node_Like = [("", "e.LHS.String()"), ("e.IsNegated()", "e.Negation.String()"), ("", "keyword(LIKE)"), ("", "e.Pattern.String()")] ∧
+    node_RowValue.parts = [⟨"", "return", "e.Value.String()", ["Value"], []⟩] ∧
+    node_ValueList.parts = [⟨"", "return", "putParentheses(listQueryExpressions(e.Values))", ["Values"], []⟩] ∧
+    node_Function.parts.drop 7 = [
+      ⟨"!(strings.EqualFold(e.Name, keyword(SUBSTRING)) && !e.From.IsEmpty())", "args", "listQueryExpressions(e.Args)", ["Args"], ["From", "Name"]⟩,
+      ⟨"", "return", "strings.ToUpper(e.Name) + \"(\" + args + \")\"", ["Name"], []⟩] ∧
+    emitted node_CursorStatus = [("", "keyword(CURSOR)"), ("", "e.Cursor.String()"), ("", "keyword(IS)"),
+      ("!e.Negation.IsEmpty()", "e.Negation.String()"), ("e.Type.Token == RANGE", "keyword(IN)"), ("", "e.Type.String()")] ∧
+    emitted node_CursorAttrebute = [("", "keyword(CURSOR)"), ("", "e.Cursor.String()"), ("", "e.Attrebute.String()")] ∧
+    -- the model's printers, equation by equation
+    (∀ (tbl : Table Csvq.Gen.Precedence.Term) e neg lo hi, print tbl (.between e neg lo hi) =
+      print tbl e ++ ((if neg then [.sym tbl.neg 0] else []) ++ .sym tbl.btw 0 :: (print tbl lo ++ .sym tbl.and_ 0 :: print tbl hi))) ∧
+    (∀ (tbl : Table Csvq.Gen.Precedence.Term) e neg vs, print tbl (.inl e neg vs) =
+      print tbl e ++ ((if neg then [.sym tbl.neg 0] else []) ++ .sym tbl.inn 0 :: .lpar :: (printArgs tbl vs ++ [.rpar]))) ∧
+    (∀ (tbl : Table Csvq.Gen.Precedence.Term) l t v r, print tbl (.nbin l t v r) = print tbl l ++ .sym tbl.neg 0 :: .sym t v :: print tbl r) ∧
+    (∀ (tbl : Table Csvq.Gen.Precedence.Term) f as, print tbl (.call f as) = .atom f :: .lpar :: (printArgs tbl as ++ [.rpar])) ∧
+    (∀ (tbl : Table Csvq.Gen.Precedence.Term) e e2 r, printArgs tbl (.cons e (.cons e2 r)) = print tbl e ++ .kw .comma :: printArgs tbl (.cons e2 r)) ∧
+    (∀ (tbl : Table Csvq.Gen.Precedence.Term) c neg range, print tbl (.cstat c neg range) =
+      .lit 9 :: .atom c :: .sym tbl.is_ 0 :: ((if neg then [.sym tbl.neg 0] else []) ++ (if range then [.sym tbl.inn 0, .lit 11] else [.lit 10]))) ∧
+    (∀ (tbl : Table Csvq.Gen.Precedence.Term) c, print tbl (.cattr c) = [.lit 9, .atom c, .lit 12]) := by
+  refine ⟨by decide, by decide, by decide, by decide, by decide, by decide, by decide, by decide, ?_, ?_, ?_, ?_, ?_, ?_, ?_⟩ <;>
+    intros <;> simp [print, printArgs, negToks]
+
+open Csvq.OpExpr Csvq.Gen.Precedence in
+/-- the hypothesis of the round trip is needed for BETWEEN too: a lower bound that is a logical AND built WITHOUT a
+    Parentheses node prints `a BETWEEN b AND c AND d`, which is another tree — `(a BETWEEN b AND c) AND d` (the parser
+    itself never builds such a Between: `a BETWEEN (b AND c) AND d` keeps its Parentheses node and round-trips) -/
+theorem between_low_and_needs_parentheses :
+    parse genTable (print genTable (.between (.atom 0) false (.bin (.atom 2) .AND 0 (.atom 4)) (.atom 6))) =
+      some (.bin (.between (.atom 0) false (.atom 2) (.atom 4)) .AND 0 (.atom 6)) ∧
+    parse genTable (print genTable (.between (.atom 0) false (.paren (.bin (.atom 2) .AND 0 (.atom 4))) (.atom 6))) =
+      some (.between (.atom 0) false (.paren (.bin (.atom 2) .AND 0 (.atom 4))) (.atom 6)) := by decide
 
 /-! ## GRAMMAR LAYER, the clause skeleton of SELECT (Csvq/Model/Clause.lean)
 
@@ -487,6 +561,35 @@ example : parse genTable [.sym .c_minus 0, .atom 0, .sym .c_star 0, .lpar, .atom
 open Csvq.OpExpr Csvq.Gen.Precedence in
 example : parse genTable [.atom 0, .sym .c_eq 0, .atom 1, .sym .c_eq 0, .atom 2] = none ∧
     parse genTable [.atom 0, .sym .IS 0, .lit 0, .sym .c_eq 0, .atom 1] = some (.bin (.post (.atom 0) .IS false 0) .c_eq 0 (.atom 1)) := by decide
+
+-- the forms added in wave 17, parsed with the regenerated table (these trees are WellFormed by op_parse_wellformed, so
+-- op_print_parse / op_print_idempotent apply to them): the AND of BETWEEN against the logical AND, the upper bound
+-- taking tighter operators, NOT decided with its own level, IN lists, calls, cursor status
+open Csvq.OpExpr Csvq.Gen.Precedence in
+example : parse genTable [.atom 0, .sym .BETWEEN 0, .atom 2, .sym .AND 0, .atom 4, .sym .AND 0, .atom 6] =
+    some (.bin (.between (.atom 0) false (.atom 2) (.atom 4)) .AND 0 (.atom 6)) ∧
+    parse genTable [.atom 0, .sym .BETWEEN 0, .atom 2, .sym .AND 0, .atom 4, .sym .c_eq 0, .atom 6] =
+    some (.between (.atom 0) false (.atom 2) (.bin (.atom 4) .c_eq 0 (.atom 6))) ∧
+    parse genTable [.atom 0, .sym .BETWEEN 0, .atom 2, .sym .OR 0, .atom 4, .sym .AND 0, .atom 6] = none ∧
+    parse genTable [.atom 0, .sym .c_eq 0, .atom 2, .sym .BETWEEN 0, .atom 4, .sym .AND 0, .atom 6] = none := by decide
+open Csvq.OpExpr Csvq.Gen.Precedence in
+example : parse genTable [.atom 0, .sym .c_eq 0, .atom 2, .sym .NOT 0, .sym .LIKE 0, .atom 4] =
+    some (.nbin (.bin (.atom 0) .c_eq 0 (.atom 2)) .LIKE 0 (.atom 4)) ∧
+    parse genTable [.atom 0, .sym .c_eq 0, .atom 2, .sym .LIKE 0, .atom 4] = none ∧
+    parse genTable [.sym .NOT 0, .atom 0, .sym .NOT 0, .sym .BETWEEN 0, .atom 2, .sym .AND 0, .atom 4] =
+    some (.pre .NOT 0 (.between (.atom 0) true (.atom 2) (.atom 4))) := by decide
+open Csvq.OpExpr Csvq.Gen.Precedence in
+example : parse genTable [.lit 9, .atom 0, .sym .IS 0, .sym .NOT 0, .lit 10, .sym .AND 0, .atom 2, .sym .NOT 0, .sym .IN 0, .lpar,
+      .atom 4, .lpar, .atom 1, .kw .comma, .atom 6, .sym .c_plus 0, .atom 3, .rpar, .kw .comma, .atom 8, .lpar, .rpar, .rpar] =
+    some (.bin (.cstat 0 true false) .AND 0 (.inl (.atom 2) true
+      (.cons (.call 4 (.cons (.atom 1) (.cons (.bin (.atom 6) .c_plus 0 (.atom 3)) .nil))) (.cons (.call 8 .nil) .nil)))) := by decide
+open Csvq.OpExpr Csvq.Gen.Precedence in
+example : WellFormed genTable (.bin (.cstat 0 true true) .AND 0 (.inl (.atom 2) false (.cons (.call 4 (.cons (.atom 1) .nil)) .nil))) :=
+  op_parse_wellformed genTable [.lit 9, .atom 0, .sym .IS 0, .sym .NOT 0, .sym .IN 0, .lit 11, .sym .AND 0, .atom 2, .sym .IN 0, .lpar,
+    .atom 4, .lpar, .atom 1, .rpar, .rpar] _ (by decide)
+-- a number is not a function name, `IN ()` is not a list
+open Csvq.OpExpr Csvq.Gen.Precedence in
+example : parse genTable [.atom 1, .lpar, .atom 0, .rpar] = none ∧ parse genTable [.atom 0, .sym .IN 0, .lpar, .rpar] = none := by decide
 
 -- the clause skeleton: a query that uses every clause, parsed from its tokens with the regenerated table; printing it gives the tokens back
 open Csvq.OpExpr Csvq.Clause Csvq.Gen.Precedence in
